@@ -244,6 +244,18 @@ func init() {
 		"time.now":         func(fr *frame, a []value) value { return tuple{int64(1700000000), int32(0), int64(1000000000)} },
 		"time.runtimeNano": func(fr *frame, a []value) value { return int64(1000000000) },
 		"time.Sleep":       retNil,
+		// timers never fire (wall-clock time is outside every claim); what a
+		// context deadline promises is observable through Context.Deadline
+		"time.newTimer": func(fr *frame, a []value) value {
+			pt := fr.fn.Signature.Results().At(0).Type().Underlying().(*types.Pointer)
+			v := zero(pt.Elem())
+			if st, ok := v.(structure); ok && len(st) == 2 {
+				st[1] = true // Timer.initTimer
+			}
+			return &v
+		},
+		"time.stopTimer":  func(fr *frame, a []value) value { return true },
+		"time.resetTimer": func(fr *frame, a []value) value { return true },
 		"runtime.nanotime": func(fr *frame, a []value) value { return int64(1000000000) },
 	})
 }
